@@ -108,6 +108,9 @@ enum Op {
     Goto(u8),
     /// Back to the plain message builder (everything dropped), then on.
     ToBuilder,
+    /// Push one TXT record at the root sized so that the message would be
+    /// exactly this many octets long (the 65535-octet boundary).
+    FillTo(usize),
     Rewind,
     SetLimit(usize),
     ClearLimit,
@@ -355,7 +358,34 @@ fn execute<T: Composer>(pool: &[String], ops: &[Op], ctl: &SinkCtl, stream: bool
     for (i, op) in ops.iter().enumerate() {
         let before = ctl.bytes.borrow().clone();
         let mut failed = false;
+        let filled;
+        let op = match op {
+            Op::FillTo(target) => {
+                let cur = ctl.bytes.borrow().len() - prefix.min(ctl.bytes.borrow().len());
+                // owner "." (1) + type, class, TTL, RDLENGTH (10) + RDATA;
+                // RDATA of a TXT of P octets is P + ceil(P / 255).
+                let rdlen = target.saturating_sub(cur + 11);
+                let root = pool.iter().position(|n| n == ".").unwrap_or(0);
+                if !(1..=3).contains(&st.section()) || rdlen < 2 || rdlen > 65_000 {
+                    lens.push(ctl.bytes.borrow().len());
+                    continue;
+                }
+                let mut p = rdlen - rdlen.div_ceil(256);
+                while p + p.div_ceil(255) < rdlen {
+                    p += 1;
+                }
+                if p + p.div_ceil(255) != rdlen {
+                    lens.push(ctl.bytes.borrow().len());
+                    continue; // not every length is reachable (n*256 + 1)
+                }
+                sim::stat("probe.message_filled_to_the_65535_boundary");
+                filled = Op::Push(Item::Record(root, 7, RData::Txt(p, 3)));
+                &filled
+            }
+            other => other,
+        };
         match op {
+            Op::FillTo(_) => unreachable!(),
             Op::Push(item) => {
                 let sec = st.section();
                 let ok_here = matches!((sec, item), (0, Item::Question(..)) | (1..=3, Item::Record(..)));
@@ -552,6 +582,12 @@ fn gen_ops(pool: &[String], size_class: u64) -> Vec<Op> {
                 ops.push(Op::Push(Item::Record(owner, ttl, rd)));
             }
         }
+    }
+    if size_class == 4 {
+        if section == 0 {
+            ops.push(Op::NextSection);
+        }
+        ops.push(Op::FillTo(65_533 + sim::draw("ops.fill_to", 5) as usize));
     }
     ops
 }
